@@ -493,4 +493,49 @@ def runLoop (P : Params) (skip : Bool) : PortSt α → List (Tick α) → List (
   | _, [] => []
   | st, tk :: rest => let st' := loopStep P skip st tk; st'.value :: runLoop P skip st' rest
 
+/-! ## Polling passes and the port's evaluation task as separate steps
+
+A pass (`main.update()` → `handle_value_changes`) only QUEUES an evaluation context (`push_eval`: time and port values
+of the pass); the port's evaluation task runs the queued contexts later, in order. Passes happen at every tick and
+also right after any confirmed port write, so several passes can see a queued, not yet run evaluation
+(`has_pending_eval`). -/
+
+structure QPort (α : Type) where
+  st : PortSt α
+  queue : List (Int × Env α)          -- queued evaluation contexts, oldest first
+
+/-- The decision of `handle_value_changes` for the port. `guardAll = false` is the code: the two shortcuts
+(paused → skip, evaluation already pending → skip) apply only when `asap` is the ONLY changed dependency; a changed
+port (or a forced evaluation) always queues. `guardAll = true` is the variant in which the pending-evaluation
+shortcut applies to every trigger of an asap expression (kept for the counter-example). -/
+def passStep (P : Params) (guardAll : Bool) (q : QPort α) (tk : Tick α) : QPort α :=
+  let asap := hasAsap q.st.tree
+  let pending := !q.queue.isEmpty
+  let paused := effPaused P.fixed tk.now q.st.tree
+  let push : QPort α := { q with queue := q.queue ++ [(tk.now, tk.env)] }
+  if !asap then (if tk.trig then push else q)
+  else if !tk.trig then (if paused then q else if pending then q else push)
+  else if guardAll && pending then q
+  else push
+
+/-- `_eval_loop`: every queued context is evaluated, oldest first, the port follows each outcome. -/
+def runQueue (P : Params) (st : PortSt α) : List (Int × Env α) → PortSt α
+  | [] => st
+  | (now, env) :: rest =>
+    let e := evalNode P env now st.tree
+    runQueue P { tree := e.1, value := applyRes st.value e.2 } rest
+
+inductive Ev (α : Type) where
+  | pass (tk : Tick α)        -- a polling pass
+  | run                       -- the port's evaluation task gets to run
+
+def evStep (P : Params) (guardAll : Bool) (q : QPort α) : Ev α → QPort α
+  | .pass tk => passStep P guardAll q tk
+  | .run => { st := runQueue P q.st q.queue, queue := [] }
+
+/-- Port value after each event of a schedule. -/
+def runEvents (P : Params) (guardAll : Bool) : QPort α → List (Ev α) → List (Option α)
+  | _, [] => []
+  | q, e :: rest => let q' := evStep P guardAll q e; q'.st.value :: runEvents P guardAll q' rest
+
 end QtVerif.TimeFns
